@@ -61,6 +61,12 @@ type expect struct {
 	check func(got cty.Value) string // expValue: optional comparator replacing ModelEqual ("" = agrees)
 	class string                     // narrow, stable input class (used in violation signatures)
 	why   string                     // expFree: which unpinned clause; expError: which domain rule
+	// inv (optional) is an invariant the property states for every outcome (e.g. "never splits a
+	// grapheme cluster"); it is checked on successful results of unpinned cases too.
+	inv func(got cty.Value) string
+	// attribute (optional) is called when a composite result differs: it returns the narrower input
+	// classes (e.g. the single format verbs) that reproduce a difference on their own.
+	attribute func() []string
 }
 
 func value(v cty.Value, class string) expect { return expect{kind: expValue, val: v, class: class} }
@@ -71,6 +77,8 @@ func free(why string) expect                 { return expect{kind: expFree, why:
 type tcase struct {
 	args []cty.Value
 	tags []string
+	// override replaces the function's reference (used for the generic "null argument" class)
+	override *expect
 }
 
 type fnDef struct {
@@ -86,6 +94,7 @@ const (
 	facetErrInside = "error inside the documented domain"
 	facetNoError   = "no error outside the documented domain"
 	facetUnknown   = "wholly known arguments gave a result that is not wholly known"
+	facetInvariant = "result splits a grapheme cluster of the input"
 )
 
 func fmtArgs(a []cty.Value) string {
@@ -107,6 +116,10 @@ func allFns() []fnDef {
 	return f
 }
 
+// nullAllowed: parameters documented to accept null (AllowNull); every other parameter of the
+// functions under test rejects a null argument with an error before the implementation runs.
+var nullAllowed = map[string]bool{"format": true, "formatlist": true, "jsonencode": true}
+
 func (Driver) Run(c *core.Ctx) {
 	fns := allFns()
 	perFn := int64(c.N(2000, 100000))
@@ -121,6 +134,13 @@ func (Driver) Run(c *core.Ctx) {
 			}
 			r := c.RNG(idx)
 			tc := fd.gen(r)
+			if !nullAllowed[fd.name] && len(tc.args) > 0 && r.Chance(1, 64) {
+				i := r.Intn(len(tc.args))
+				tc.args[i] = cty.NullVal(tc.args[i].Type())
+				tc.tags = append(tc.tags, "null-argument")
+				e := failure("null argument for a parameter that does not allow null", "null-argument")
+				tc.override = &e
+			}
 			runCase(c, idx, fd, tc)
 		}
 	}
@@ -136,7 +156,13 @@ func runCase(c *core.Ctx, idx int64, fd *fnDef, tc tcase) {
 
 	// reference first (it never touches the library function under test)
 	var exp expect
-	ro := core.Guard(func() { exp = fd.ref(tc.args) })
+	ro := core.Guard(func() {
+		if tc.override != nil {
+			exp = *tc.override
+		} else {
+			exp = fd.ref(tc.args)
+		}
+	})
 	if ro.Panicked {
 		// a bug in the harness, not in the library: make it loud but distinguishable
 		c.Violate(site, "HARNESS: reference panicked", "", desc(), ro.PanicMsg+"\n"+ro.Stack)
@@ -179,6 +205,12 @@ func runCase(c *core.Ctx, idx int64, fd *fnDef, tc tcase) {
 			c.Count("free-outcome:" + fd.name + ":" + exp.why + ":error")
 		} else {
 			c.Count("free-outcome:" + fd.name + ":" + exp.why + ":value")
+			if exp.inv != nil {
+				c.Count("oracle:invariant:" + fd.name)
+				if why := exp.inv(got); why != "" {
+					c.Violate(site, facetInvariant, exp.class, canon, fmt.Sprintf("result %#v; %s", got, why))
+				}
+			}
 		}
 	case expError:
 		c.Count("oracle:error-expected:" + fd.name)
@@ -199,12 +231,29 @@ func runCase(c *core.Ctx, idx int64, fd *fnDef, tc tcase) {
 			c.Violate(site, facetType, exp.class, canon, fmt.Sprintf("result %#v has type %#v; documented type %#v (reference %#v)", got, got.Type(), exp.val.Type(), exp.val))
 			break
 		}
+		differs, why := false, ""
 		if exp.check != nil {
-			if why := exp.check(got); why != "" {
-				c.Violate(site, facetDiffers, exp.class, canon, fmt.Sprintf("result %#v; reference %#v; %s", got, exp.val, why))
+			why = exp.check(got)
+			differs = why != ""
+		} else {
+			differs = !mon.ModelEqual(got, exp.val)
+		}
+		if differs {
+			c.Count("oracle:differs:" + fd.name)
+			detail := fmt.Sprintf("result %#v; reference %#v", got, exp.val)
+			if why != "" {
+				detail += "; " + why
 			}
-		} else if !mon.ModelEqual(got, exp.val) {
-			c.Violate(site, facetDiffers, exp.class, canon, fmt.Sprintf("result %#v; reference %#v", got, exp.val))
+			classes := []string{exp.class}
+			if exp.attribute != nil {
+				if a := exp.attribute(); len(a) > 0 {
+					classes = a
+					detail += "; verbs that differ on their own: " + strings.Join(a, " ")
+				}
+			}
+			for _, cl := range classes {
+				c.Violate(site, facetDiffers, cl, canon, detail)
+			}
 		}
 	}
 	if err == nil {
@@ -214,6 +263,10 @@ func runCase(c *core.Ctx, idx int64, fd *fnDef, tc tcase) {
 		if e := cty.VerifWellFormed(got); e != nil {
 			c.CrossNote("C06", site+": (hook) "+e.Error(), canon)
 		}
+	}
+	if fd.name == "jsonencode" && tc.override == nil {
+		representable := len(tc.tags) > 0 && tc.tags[0] == "json-representable"
+		roundTrip(c, tc.args[0], representable)
 	}
 	if c.WantSample() && exp.kind == expValue && err == nil {
 		c.Sample(map[string]any{"fn": fd.name, "args": fmtArgs(tc.args), "result": fmt.Sprintf("%#v", got), "reference": fmt.Sprintf("%#v", exp.val)})
